@@ -70,11 +70,19 @@ class TextReal:
     def __float__(self):
         return float(self.text)
 
+    # equal and hashed by value, as float and Decimal are, so that a set literal keeps
+    # the same elements whatever the real-number class is
     def __eq__(self, other):
-        return isinstance(other, TextReal) and self.text == other.text
+        if isinstance(other, TextReal):
+            return float(self) == float(other)
+        if isinstance(other, (int, float)) and not isinstance(other, bool):
+            return float(self) == other
+        if isinstance(other, bool):
+            return float(self) == other
+        return NotImplemented
 
     def __hash__(self):
-        return hash(("TextReal", self.text))
+        return hash(float(self.text))
 
     def __repr__(self):
         return f"TextReal({self.text!r})"
@@ -94,6 +102,16 @@ class RecordingQuantity:
 
     def __hash__(self):
         return hash(("RQ", self.value, self.units))
+
+
+class PickyQuantity(RecordingQuantity):
+    """A quantity class that knows only some units (as astropy's does) and says so with
+    ValueError: the load may fail then, but must not hand back the bare value."""
+
+    def __init__(self, value, units):
+        if str(units).isupper() or "%" in str(units):
+            raise ValueError(f"unknown units {units!r}")
+        super().__init__(value, units)
 
 
 class MyModule(PVLModule):
@@ -132,7 +150,8 @@ def load(d, cfg, text, substitutes=True):
         if cfg["real"] != "float" and d != "PDS3":
             deckw["real_cls"] = REAL[cfg["real"]]
         if cfg["quantity"]:
-            deckw["quantity_cls"] = RecordingQuantity
+            deckw["quantity_cls"] = PickyQuantity if cfg["quantity"] == "picky" \
+                else RecordingQuantity
         if cfg["containers"]:
             pkw = dict(module_class=MyModule, group_class=MyGroup,
                        object_class=MyObject)
@@ -181,7 +200,8 @@ def walk(v, cfg, d, kind, out, path="$"):
         return ("set", frozenset(walk(x, cfg, d, None, out, path + "{}")
                                  for x in v))
     if isinstance(v, RecordingQuantity) or isinstance(v, Quantity):
-        wantq = RecordingQuantity if cfg["quantity"] else Quantity
+        wantq = {False: Quantity, True: RecordingQuantity,
+                 "picky": PickyQuantity}[cfg["quantity"]]
         if type(v) is not wantq:
             out["problems"].append(
                 ("quantity-class", f"{path}: {type(v).__name__}, expected "
@@ -258,6 +278,8 @@ def run_case(case):
     except BudgetExceeded:
         return (f"C18/{d}/spins", repr(text))
     except Exception as e:
+        if cfg["quantity"] == "picky" and type(e).__name__ == "QuantityError":
+            return None          # the class refused some units: failing is fine
         return (f"C18/{d}/load-raises/{type(e).__name__}",
                 f"cfg={cfg}: {type(e).__name__}: {str(e)[:200]}; text={text!r}")
     out = dict(problems=[], texts=[], decimals=[])
@@ -348,7 +370,8 @@ def cases(draw, d):
     text = gt.seeded_layout(doc, d, draw(st.integers(0, 2 ** 32)), "light")
     cfg = dict(real=draw(st.sampled_from(["float", "Decimal", "RecordingReal",
                                            "RecordingReal", "TextReal"])),
-               quantity=draw(st.booleans()), containers=draw(st.booleans()),
+               quantity=draw(st.sampled_from([False, True, True, "picky"])),
+               containers=draw(st.booleans()),
                via_loads=draw(st.booleans()),
                entry=draw(st.sampled_from(["str", "str", "bytes", "BytesIO",
                                            "StringIO"])),
